@@ -13,6 +13,14 @@
 //! `balance -X`, `balance -X --historical`, `balance --start --end` through the real CLI on a real file) is
 //! identical to the observation of the all-canonical ledger, which itself is pinned to a hand-checked report.
 //!
+//! Part C (transparency of a price database). For the base ledgers that declare commodities (L2, L3) a price DB
+//! file (`--price-db`, ProcessOptions::price_db_path; real scratch file) whose `P` lines mention the declared
+//! commodities on the target and on the rate side: ALL assignments canonical/alias1/alias2 to every mention site
+//! of the DB, once with the ledger in canonical names and once with the ledger written through aliases. Oracle:
+//! acceptance, Ledger::balance, transactions, Ledger::balance converted to USD and JPY, and the CLI `balance`,
+//! `register`, `balance -X USD|JPY` with `--price-db` equal the canonical ledger + canonical DB run (whose
+//! `balance -X USD` report is pinned to a hand-checked text) and show canonical names only.
+//!
 //! Part B (conflicts, explicit-state search over histories). Names {p,q,r}, two name spaces (accounts,
 //! commodities). Actions: use a name in a posting, `account c`, `account c` + `alias a` (incl. a = c),
 //! `account c` + `alias a` + `alias b` (same for `commodity`). Reference state K = alias table
@@ -36,12 +44,13 @@ use crate::q::{qmap_add, qmap_show, QMap, Q};
 pub const DEF: CheckDef = CheckDef {
     id: "C12",
     run,
-    technique: "part A: stateless exhaustive substitution (every assignment canonical/alias1/alias2 to every mention site of three base ledgers, metamorphic comparison with the all-canonical run through the API and the in-process CLI); part B: explicit-state BFS over alias tables plus all raw action sequences up to a depth bound, each edge re-running the real book-keeping on the whole history and observing the resulting table through probe postings",
-    rule: "part A case = (base ledger, assignment of a declared name to each of its 10..15 mention sites); states = distinct substituted ledgers. Part B case = (reference-accepted history, next action) over names {p,q,r} x {accounts, commodities}; states = distinct alias tables (B1) resp. distinct histories (B2); transitions = cases executed on the real code. A case is MUST when the statement fixes the outcome: substituted ledger == canonical ledger in every report; alias-already-canonical (declared or merely used) and canonical-already-alias rejected with an error; every other first declaration / use accepted with all balances under the canonical name",
+    technique: "part A: stateless exhaustive substitution (every assignment canonical/alias1/alias2 to every mention site of three base ledgers, metamorphic comparison with the all-canonical run through the API and the in-process CLI); part C: the same exhaustive substitution over the mention sites of a price-database file given with --price-db; part B: explicit-state BFS over alias tables plus all raw action sequences up to a depth bound, each edge re-running the real book-keeping on the whole history and observing the resulting table through probe postings",
+    rule: "part A case = (base ledger, assignment of a declared name to each of its 10..15 mention sites); states = distinct substituted ledgers. Part C case = (base ledger L2/L3 in canonical or alias spelling, assignment of a declared name to each of the 9 resp. 7 mention sites of its price DB), all 2 592 resp. 648 assignments in both tiers. Part B case = (reference-accepted history, next action) over names {p,q,r} x {accounts, commodities}; states = distinct alias tables (B1) resp. distinct histories (B2); transitions = cases executed on the real code. A case is MUST when the statement fixes the outcome: substituted ledger == canonical ledger in every report; alias-already-canonical (declared or merely used) and canonical-already-alias rejected with an error; every other first declaration / use accepted with all balances under the canonical name",
     assumptions: &[
         "the all-canonical form of each base ledger is the reference of part A; its `balance` report is pinned to a hand-checked text so that a change hitting canonical and alias spellings alike is still reported",
         "DON'T-CARE: alias of itself (`account p` + `alias p`), alias re-pointed to another canonical; duplicate declarations (`account p` twice, identical alias twice) may be rejected, but if accepted must leave the table unchanged",
         "aliases given as command-line arguments (`register FILE <alias>`, `-X <alias>`) and the commodity written inside a `format` line are outside the statement and not judged",
+        "a `P` line of the price DB given with --price-db counts as a later mention of the commodity (the DB is read after the ledger, i.e. after every declaration); a DB naming only commodities the ledger never mentions is executed but not judged",
         "quick tier: a base ledger with more than 20 000 assignments is explored over all 2^n canonical/one-alias assignments plus all full-arity assignments with at most 2 non-canonical sites; thorough explores all full-arity assignments",
     ],
     shards: 64,
@@ -76,7 +85,40 @@ struct Base {
     accounts: &'static [&'static str],
     /// the hand-checked `okane balance` report of the canonical form
     expected_balance: &'static str,
+    /// part C: a price database for this ledger
+    price_db: Option<&'static PriceDb>,
 }
+
+struct PriceDb {
+    /// price DB text; `<TAG position-label>` marks a mention site (every alias of the ledger is available:
+    /// the price DB is read after the whole ledger)
+    template: &'static str,
+    /// CLI commands: "{}" is the ledger path, "{db}" the price DB path
+    commands: &'static [(&'static str, &'static [&'static str])],
+    /// the hand-checked `okane balance -X USD --price-db ...` report (commands[2]) of the canonical form
+    expected_x_usd: &'static str,
+}
+
+const DB_COMMANDS: &[(&str, &[&str])] = &[
+    ("balance", &["balance", "--price-db", "{db}", "{}"]),
+    ("register", &["register", "--price-db", "{db}", "{}"]),
+    ("balance-X-USD", &["balance", "-X", "USD", "--price-db", "{db}", "--now", "2024-02-01", "{}"]),
+    ("balance-X-JPY", &["balance", "-X", "JPY", "--price-db", "{db}", "--now", "2024-02-01", "{}"]),
+];
+
+/// L2: AAPL 170 USD, JPY 0.0066 USD (the later of the two USD/JPY lines), EUR never appears in the ledger.
+const DB2: PriceDb = PriceDb {
+    template: "P 2024/01/10 <C2 db-target> 170.00 <C0 db-rate>\nP 2024/01/15 <C0 db-target> 151 <C1 db-rate>\nP 2024/01/20 <C1 db-target> 0.0066 <C0 db-rate>\nP 2024/01/25 <C2 db-target> 26,000 <C1 db-rate>\nP 2024/01/31 EUR 1.10 <C0 db-rate>\n",
+    commands: DB_COMMANDS,
+    expected_x_usd: "Assets:Bank: 1101.00 USD\nAssets:Broker: 510.00 USD\nAssets:Cash: 97.00 USD\nEquity: -1660.00 USD\nExpenses:Food: 3.00 USD\n",
+};
+
+/// L3 (declarations after the first uses): JPY 0.0067 USD, AAPL 105 USD; AAPL and EUR are never declared.
+const DB3: PriceDb = PriceDb {
+    template: "P 2024/01/10 <C0 db-target> 152 <C1 db-rate>\nP 2024/01/20 <C1 db-target> 0.0067 <C0 db-rate>\nP 2024/01/25 AAPL 16,000 <C1 db-rate>\nP 2024/01/28 AAPL 105.00 <C0 db-rate>\nP 2024/01/31 EUR 1.10 <C0 db-rate>\n",
+    commands: DB_COMMANDS,
+    expected_x_usd: "Assets:Bank: 786.15 USD\nAssets:Broker: 210.00 USD\nAssets:Cash: 9.92 USD\nEquity: -1000.00 USD\nExpenses:Food: 3.35 USD\n",
+};
 
 const L1: Base = Base {
     name: "L1-accounts",
@@ -96,6 +138,7 @@ const L1: Base = Base {
     ],
     accounts: &["Assets:Bank", "Expenses:Food", "Equity"],
     expected_balance: "Assets:Bank: (-7 EUR + 50 USD)\nEquity: -100 USD\nExpenses:Food: (7 EUR + 50 USD)\n",
+    price_db: None,
 };
 
 const L2: Base = Base {
@@ -117,6 +160,7 @@ const L2: Base = Base {
     ],
     accounts: &["Assets:Bank", "Assets:Broker", "Assets:Cash"],
     expected_balance: "Assets:Bank: (85000 JPY + 540.00 USD)\nAssets:Broker: 3 AAPL\nAssets:Cash: 97.00 USD\nEquity: (-100000 JPY + -1000.00 USD)\nExpenses:Food: 3.004 USD\n",
+    price_db: Some(&DB2),
 };
 
 const L3: Base = Base {
@@ -141,6 +185,7 @@ commodity JPY\n  ; comment first\n  format 1,000 JPY\n  alias \u{a5}\n\n\
     ],
     accounts: &["Assets:Bank", "Assets:Cash", "Equity"],
     expected_balance: "Assets:Bank: (-15500 JPY + 890.00 USD)\nAssets:Broker: 2 AAPL\nAssets:Cash: 1480 JPY\nEquity: -1000.00 USD\nExpenses:Food: 500 JPY\n",
+    price_db: Some(&DB3),
 };
 
 const QUICK_CAP: u64 = 20_000;
@@ -168,11 +213,16 @@ struct Compiled {
 }
 
 fn compile(base: &'static Base) -> Compiled {
-    let mut avail: Vec<Vec<String>> = base.entities.iter().map(|_| vec![]).collect();
+    compile_text(base, base.template, None)
+}
+
+/// `declared`: aliases already declared before the first line of `template` (the price DB of a ledger).
+fn compile_text(base: &'static Base, template: &'static str, declared: Option<&Vec<Vec<String>>>) -> Compiled {
+    let mut avail: Vec<Vec<String>> = declared.cloned().unwrap_or_else(|| base.entities.iter().map(|_| vec![]).collect());
     let mut current: Option<usize> = None;
     let mut pieces = vec![];
     let mut sites = vec![];
-    for line in base.template.split_inclusive('\n') {
+    for line in template.split_inclusive('\n') {
         let body = line.trim_end_matches('\n');
         if !body.starts_with(' ') {
             current = None;
@@ -249,21 +299,7 @@ impl Compiled {
             mode = "all full-arity assignments";
         } else {
             mode = "all 2^n canonical/one-alias assignments + all full-arity assignments with <= 2 non-canonical sites";
-            // the alias offered at a site in the binary pass rotates over the entity's aliases
-            let mut seen = vec![0usize; self.base.entities.len()];
-            let designated: Vec<u8> = self
-                .sites
-                .iter()
-                .map(|s| {
-                    let k = s.choices.len() - 1;
-                    if k == 0 {
-                        return 0;
-                    }
-                    let o = seen[s.entity];
-                    seen[s.entity] += 1;
-                    (o % k) as u8 + 1
-                })
-                .collect();
+            let designated = self.designated();
             let free: Vec<usize> = (0..n).filter(|i| self.sites[*i].choices.len() > 1).collect();
             v = Vec::with_capacity(1 << free.len());
             for mask in 1u64..(1u64 << free.len()) {
@@ -295,6 +331,22 @@ impl Compiled {
         let weight = |idx: u64| self.decode(idx).iter().filter(|d| **d != 0).count() as u64;
         v.sort_by_cached_key(|i| (weight(*i), *i));
         (v, mode)
+    }
+    /// One alias per site, rotating over the aliases of the site's name (0 where no alias is available).
+    fn designated(&self) -> Vec<u8> {
+        let mut seen = vec![0usize; self.base.entities.len()];
+        self.sites
+            .iter()
+            .map(|s| {
+                let k = s.choices.len() - 1;
+                if k == 0 {
+                    return 0;
+                }
+                let o = seen[s.entity];
+                seen[s.entity] += 1;
+                (o % k) as u8 + 1
+            })
+            .collect()
     }
     fn all_alias_names(&self, kind: Kind) -> BTreeSet<&str> {
         let mut s = BTreeSet::new();
@@ -492,15 +544,14 @@ fn kind_name(k: Kind) -> &'static str {
     }
 }
 
-/// Does the substitution of this one site alone break transparency?
-fn single_fails(c: &Compiled, canon: &Obs, site: usize, digit: u8, path: &Path) -> bool {
+/// Does the substitution of this one site alone break transparency? (`compute` runs it; cached per worker)
+fn single_fails(c: &Compiled, site: usize, digit: u8, compute: &dyn Fn(&[u8]) -> bool) -> bool {
     if let Some(b) = c.single_cache.borrow().get(&(site, digit)) {
         return *b;
     }
     let mut single = vec![0u8; c.sites.len()];
     single[site] = digit;
-    let o = observe(c.base, &c.render(&single), path);
-    let b = !matches!(diff(c, canon, &o), Diff::Same | Diff::Soft(_));
+    let b = compute(&single);
     c.single_cache.borrow_mut().insert((site, digit), b);
     b
 }
@@ -508,9 +559,9 @@ fn single_fails(c: &Compiled, canon: &Obs, site: usize, digit: u8, path: &Path) 
 /// Label of the smallest culprit of a violating assignment, as general as the evidence allows:
 /// `<kind>-alias@any-position` if every single substitution of that kind of name fails in this base ledger,
 /// `<kind>-alias(<shape>)@any-position` if every single substitution by an alias of that shape fails,
-/// otherwise `<kind>-alias(<shape>)@<position>`.
-fn culprit_label(c: &Compiled, canon: &Obs, digits: &[u8], path: &Path) -> String {
-    let first = digits.iter().enumerate().filter(|(_, d)| **d != 0).find(|(i, d)| single_fails(c, canon, *i, **d, path));
+/// otherwise `<kind>-alias(<shape>)@<position>`. `fails(assignment)` runs one assignment and tells whether it differs.
+fn culprit_label(c: &Compiled, digits: &[u8], fails: &dyn Fn(&[u8]) -> bool) -> String {
+    let first = digits.iter().enumerate().filter(|(_, d)| **d != 0).find(|(i, d)| single_fails(c, *i, **d, fails));
     let (i, d) = match first {
         Some((i, d)) => (i, *d),
         None => return format!("only-in-combination-of-{}-sites", digits.iter().filter(|d| **d != 0).count()),
@@ -524,7 +575,7 @@ fn culprit_label(c: &Compiled, canon: &Obs, digits: &[u8], path: &Path) -> Strin
             continue;
         }
         for e in 1..s.choices.len() as u8 {
-            if !single_fails(c, canon, j, e, path) {
+            if !single_fails(c, j, e, fails) {
                 all_of_kind = false;
                 if alias_shape(&s.choices[e as usize]) == shape {
                     all_of_shape = false;
@@ -564,7 +615,7 @@ fn judge_a(c: &Compiled, canon: &Result<Obs, String>, digits: &[u8], path: &Path
         }, kinds.into_iter().collect::<Vec<_>>().join("+"))),
         Diff::Soft(label) => Outcome::dont_care(format!("text-differs-values-equal/{}/{}", c.base.name, label)),
         Diff::Hard { observable, kind, detail } => {
-            let culprit = culprit_label(c, canon, digits, path);
+            let culprit = culprit_label(c, digits, &|dg: &[u8]| !matches!(diff(c, canon, &observe(c.base, &c.render(dg), path)), Diff::Same | Diff::Soft(_)));
             let what = if observable.starts_with("cli:") { format!("{}-{}", observable.replace(':', "-"), kind) } else { kind.to_string() };
             Outcome::violation(format!("transparency/{}/{}", what, culprit), format!("base ledger {}, first differing observable: {}\n{}", c.base.name, observable, detail))
         }
@@ -668,6 +719,236 @@ fn part_a(ctx: &mut Ctx, path: &Path) -> u64 {
         }
     }
     ledgers
+}
+
+// =================================================================================================
+// Part C — transparency of a price database (`--price-db`, ProcessOptions::price_db_path)
+// =================================================================================================
+//
+// The price DB is read after the whole ledger, i.e. after every declaration: a `P` line may spell a declared
+// commodity by any of its aliases, on the target side and on the rate side. For the base ledgers that declare
+// commodities (L2, L3) every assignment canonical/alias1/alias2 to every mention site of the DB file is explored,
+// once with the all-canonical ledger and once with the ledger written through aliases at every site.
+
+#[derive(Clone, PartialEq, Eq, Debug)]
+struct DbApi {
+    balance: Balances,
+    txns: Vec<TxnView>,
+    /// Ledger::balance converted up-to-date (2024-02-01) to USD / JPY
+    converted: Vec<(String, Result<Balances, String>)>,
+}
+
+#[derive(Clone, PartialEq, Eq, Debug)]
+struct DbObs {
+    api: Result<DbApi, String>,
+    cli: Vec<String>,
+}
+
+fn observe_db(db: &PriceDb, ledger_text: &str, db_text: &str, lpath: &Path, dpath: &Path) -> DbObs {
+    use okane_core::report::query::{Conversion, ConversionStrategy};
+    std::fs::write(lpath, ledger_text).expect("write scratch ledger");
+    std::fs::write(dpath, db_text).expect("write scratch price db");
+    let api = oka::with_ledger(&[(oka::ROOT, ledger_text)], oka::ROOT, Some(dpath), |r| {
+        let (l, ctx) = match r {
+            Ok(x) => x,
+            Err(e) => return Err(format!("{}: {}", e.variant, e.rendered.lines().next().unwrap_or(""))),
+        };
+        let txns = oka::txn_views(l);
+        let balance = match l.balance(ctx, &BalanceQuery::default()) {
+            Ok(b) => oka::balance_to_map(&b),
+            Err(e) => return Err(format!("balance query failed: {}", e)),
+        };
+        let mut converted = vec![];
+        for t in ["USD", "JPY"] {
+            let r = match ctx.commodity(t) {
+                None => Err(format!("commodity {} not found", t)),
+                Some(target) => {
+                    let q = BalanceQuery { conversion: Some(Conversion { strategy: ConversionStrategy::UpToDate { now: oka::date(2024, 2, 1) }, target }), date_range: DateRange::default() };
+                    match l.balance(ctx, &q) {
+                        Ok(b) => Ok(oka::balance_to_map(&b)),
+                        Err(e) => Err(e.to_string()),
+                    }
+                }
+            };
+            converted.push((t.to_string(), r));
+        }
+        Ok(DbApi { balance, txns, converted })
+    });
+    let (lp, dp) = (lpath.to_string_lossy().to_string(), dpath.to_string_lossy().to_string());
+    let cli = db
+        .commands
+        .iter()
+        .map(|(_, args)| {
+            let mut a = vec!["okane".to_string()];
+            a.extend(args.iter().map(|x| match *x {
+                "{}" => lp.clone(),
+                "{db}" => dp.clone(),
+                o => o.to_string(),
+            }));
+            run_cli(&a).replace(&lp, "<file>").replace(&dp, "<price-db>")
+        })
+        .collect();
+    DbObs { api, cli }
+}
+
+fn db_api_shows_alias(c: &Compiled, a: &DbApi) -> bool {
+    let com = c.all_alias_names(Kind::Commodity);
+    let acc = c.all_alias_names(Kind::Account);
+    let bad = |b: &Balances| b.iter().any(|(n, m)| acc.contains(n.as_str()) || m.keys().any(|k| com.contains(k.as_str())));
+    bad(&a.balance) || a.converted.iter().any(|(_, r)| r.as_ref().map(bad).unwrap_or(false))
+}
+
+/// (observable, kind, detail) of the first hard difference; text-only differences of balance reports are ignored.
+fn diff_db(c: &Compiled, db: &PriceDb, canon: &DbObs, got: &DbObs) -> Option<(String, &'static str, String)> {
+    let ca = canon.api.as_ref().expect("canonical observation is healthy");
+    match &got.api {
+        Err(e) => return Some(("api".into(), "accepted-ledger-rejected", format!("with the price DB in canonical names the ledger is accepted; with this spelling it is rejected: {}", e))),
+        Ok(ga) => {
+            let shows = if db_api_shows_alias(c, ga) { "alias-name-shown" } else { "values-differ" };
+            if ga.balance != ca.balance || ga.txns != ca.txns {
+                return Some(("api-balance".into(), shows, format!("Ledger::balance / transactions\n canonical spelling: {:?}\n this spelling:      {:?}", show_bal(&ca.balance), show_bal(&ga.balance))));
+            }
+            if ga.converted != ca.converted {
+                let show = |v: &Vec<(String, Result<Balances, String>)>| v.iter().map(|(t, r)| format!("-X {}: {:?}", t, r.as_ref().map(show_bal))).collect::<Vec<_>>();
+                return Some(("api-balance-converted".into(), shows, format!("Ledger::balance with up-to-date conversion\n canonical spelling: {:?}\n this spelling:      {:?}", show(&ca.converted), show(&ga.converted))));
+            }
+        }
+    }
+    for (i, (label, args)) in db.commands.iter().enumerate() {
+        let (a, b) = (&canon.cli[i], &got.cli[i]);
+        if a == b {
+            continue;
+        }
+        if label.starts_with("balance") {
+            if let (Some(x), Some(y)) = (parse_balance_report(a), parse_balance_report(b)) {
+                if x == y {
+                    continue;
+                }
+            }
+        }
+        let kind = if text_shows_alias(c, b) {
+            "alias-name-shown"
+        } else if a.starts_with("EXIT 0") != b.starts_with("EXIT 0") {
+            "fails"
+        } else {
+            "values-differ"
+        };
+        return Some((format!("cli:{}", label), kind, format!("okane {}\n--- canonical spelling ---\n{}\n--- this spelling ---\n{}", args.join(" ").replace("{}", "<file>").replace("{db}", "<price-db>"), a, b)));
+    }
+    None
+}
+
+fn canonical_db_obs(c: &Compiled, db: &PriceDb, d: &Compiled, lpath: &Path, dpath: &Path) -> Result<DbObs, String> {
+    let ledger = c.render(&vec![0u8; c.sites.len()]);
+    let dbt = d.render(&vec![0u8; d.sites.len()]);
+    let o = match fw::guarded(|| observe_db(db, &ledger, &dbt, lpath, dpath)) {
+        Ok(o) => o,
+        Err(p) => return Err(format!("panic while processing the canonical ledger with the canonical price DB: {}", p)),
+    };
+    match &o.api {
+        Err(e) => return Err(format!("the canonical ledger with the canonical price DB is rejected: {}", e)),
+        Ok(a) => {
+            if db_api_shows_alias(c, a) {
+                return Err("the canonical ledger with the canonical price DB reports an alias name".into());
+            }
+            for (t, r) in &a.converted {
+                if let Err(e) = r {
+                    return Err(format!("conversion to {} fails with the canonical price DB: {}", t, e));
+                }
+            }
+        }
+    }
+    for (i, (label, _)) in db.commands.iter().enumerate() {
+        if !o.cli[i].starts_with("EXIT 0\n") {
+            return Err(format!("`okane {}` fails with the canonical price DB:\n{}", label, o.cli[i]));
+        }
+        if text_shows_alias(c, &o.cli[i]) {
+            return Err(format!("`okane {}` with the canonical price DB prints an alias:\n{}", label, o.cli[i]));
+        }
+    }
+    let want = format!("EXIT 0\n{}", db.expected_x_usd);
+    if o.cli[2] != want && !(parse_balance_report(&o.cli[2]).is_some() && parse_balance_report(&o.cli[2]) == parse_balance_report(&want)) {
+        return Err(format!("`okane balance -X USD --price-db` on the canonical form differs from the hand-checked report\n--- expected ---\n{}\n--- observed ---\n{}", want, o.cli[2]));
+    }
+    Ok(o)
+}
+
+fn part_c(ctx: &mut Ctx, lpath: &Path, dpath: &Path) -> u64 {
+    let mut states = 0u64;
+    for base in [&L2, &L3] {
+        let db = base.price_db.expect("harness bug: base ledger without price DB");
+        let c = compile(base);
+        let spellings: [(&str, Vec<u8>); 2] = [("ledger-in-canonical-names", vec![0u8; c.sites.len()]), ("ledger-through-aliases", c.designated())];
+        let d0 = compile_text(base, db.template, Some(&c.aliases));
+        let canon = canonical_db_obs(&c, db, &d0, lpath, dpath);
+        let full = d0.full_count();
+        ctx.fact(&format!("C_{}_db_sites", base.name), d0.sites.len() as u64);
+        ctx.fact(&format!("C_{}_db_site_arities", base.name), d0.sites.iter().map(|s| s.choices.len().to_string()).collect::<Vec<_>>().join(","));
+        ctx.fact(&format!("C_{}_db_assignments", base.name), full);
+        ctx.case(
+            || format!("[part C, {}] canonical ledger with the price DB in canonical names, against the pinned `balance -X USD` report\n--- price DB ---\n{}--- ledger ---\n{}", base.name, d0.render(&vec![0u8; d0.sites.len()]), c.render(&spellings[0].1)),
+            || match &canon {
+                Ok(_) => Outcome::pass(format!("price-db/canonical-form-as-pinned/{}", base.name)),
+                Err(why) => Outcome::violation(format!("transparency/price-db/{}/canonical-form-unhealthy", base.name), why.clone()),
+            },
+        );
+        states += 1;
+        for (si, (sname, ldigits)) in spellings.iter().enumerate() {
+            // one cache of single-site results per ledger spelling
+            let d = compile_text(base, db.template, Some(&c.aliases));
+            let ledger = c.render(ldigits);
+            let mut order: Vec<u64> = (if si == 0 { 1 } else { 0 }..full).collect();
+            let weight = |idx: u64| d.decode(idx).iter().filter(|x| **x != 0).count() as u64;
+            order.sort_by_cached_key(|i| (weight(*i), *i));
+            states += order.len() as u64;
+            for idx in order {
+                if !ctx.next_is_mine() {
+                    ctx.skip_cases(1);
+                    continue;
+                }
+                let digits = d.decode(idx);
+                ctx.case(
+                    || {
+                        let subs: Vec<String> = digits.iter().enumerate().filter(|(_, x)| **x != 0).map(|(i, x)| site_label(&d, i, *x)).collect();
+                        format!(
+                            "[part C, {}, {}] price-DB substitutions: {}\ncompared with canonical ledger + canonical price DB through ProcessOptions{{price_db_path}} and: {}\n--- price DB ---\n{}--- ledger ---\n{}",
+                            base.name,
+                            sname,
+                            if subs.is_empty() { "none".to_string() } else { subs.join(", ") },
+                            db.commands.iter().map(|(_, a)| format!("okane {}", a.join(" ").replace("{}", "<file>").replace("{db}", "<price-db>"))).collect::<Vec<_>>().join(" | "),
+                            d.render(&digits),
+                            ledger
+                        )
+                    },
+                    || {
+                        let canon = match &canon {
+                            Ok(o) => o,
+                            Err(why) => return Outcome::violation(format!("transparency/price-db/{}/canonical-form-unhealthy", base.name), why.clone()),
+                        };
+                        let got = observe_db(db, &ledger, &d.render(&digits), lpath, dpath);
+                        let w = digits.iter().filter(|x| **x != 0).count();
+                        match diff_db(&c, db, canon, &got) {
+                            None => Outcome::pass(format!("transparent-price-db/{}/{}/{}-db-sites-substituted", base.name, sname, if w <= 2 { "0-2" } else { "3+" })),
+                            Some((observable, kind, detail)) => {
+                                let culprit = if w == 0 { "ledger-aliases-only".to_string() } else { culprit_label(&d, &digits, &|dg: &[u8]| diff_db(&c, db, canon, &observe_db(db, &ledger, &d.render(dg), lpath, dpath)).is_some()) };
+                                let what = if observable.starts_with("cli:") { format!("{}-{}", observable.replace(':', "-"), kind) } else { kind.to_string() };
+                                Outcome::violation(format!("transparency/price-db/{}/{}", what, culprit.replace("commodity-alias", "db-commodity-alias")), format!("base ledger {} ({}), first differing observable: {}\n{}", base.name, sname, observable, detail))
+                            }
+                        }
+                    },
+                );
+            }
+        }
+        // Not judged: a price DB that only names commodities the ledger never mentions (the statement is about declared names).
+        ctx.case(
+            || format!("[part C, {}, NOT JUDGED] price DB naming only commodities the ledger never mentions\n--- price DB ---\nP 2024/01/31 XAU 2,000.00 CHF\n--- ledger ---\n{}", base.name, c.render(&spellings[0].1)),
+            || {
+                let o = observe_db(db, &c.render(&spellings[0].1), "P 2024/01/31 XAU 2,000.00 CHF\n", lpath, dpath);
+                Outcome::dont_care(format!("not-judged/price-db-with-undeclared-commodities/{}", if o.api.is_ok() { "accepted" } else { "rejected" }))
+            },
+        );
+    }
+    states
 }
 
 // =================================================================================================
@@ -1116,9 +1397,12 @@ fn part_b(ctx: &mut Ctx, path: &Path) -> u64 {
 fn run(ctx: &mut Ctx) {
     let dir: PathBuf = oka::scratch_dir("c12");
     let path = dir.join(format!("case-{}.ledger", ctx.shard));
+    let dpath = dir.join(format!("case-{}.pricedb", ctx.shard));
     let a_states = part_a(ctx, &path);
+    let c_states = part_c(ctx, &path, &dpath);
     let b_states = part_b(ctx, &path);
-    ctx.fact("states", a_states + b_states);
+    ctx.fact("states", a_states + b_states + c_states);
+    ctx.fact("C_distinct_ledger_and_price_db_pairs", c_states);
     ctx.fact("A_distinct_ledgers", a_states);
     ctx.fact("B_states_plus_histories", b_states);
     let _ = std::fs::remove_dir_all(&dir);
